@@ -60,23 +60,48 @@ def textLeaf (c : Cfg) (t : Ty) (l : BLeaf) : Res String :=
   | some s => textScalarVal t s
   | none => .error .beyond
 
+def someStr : Res String → Res String
+  | .ok v => .ok ("some(" ++ v ++ ")")
+  | .error e => .error e
+
+/-- a text scalar for a type under `Option` layers (`visit_some(self)`). -/
+def textScalarOpt : Ty → Bytes → Res String
+  | .opt t, s => someStr (textScalarOpt t s)
+  | t, s => textScalarVal t s
+
 /-- second element of a header value: the array `{ r g b }` of scalars. -/
 def textInner (col : Rgb) (t : Ty) : Res String :=
   match t with
   | .ign => .ok "ign"
+  | .opt t' => someStr (textInner col t')
   | .any => .ok ("[" ++ joinComma (col.comps.map (fun v => renderPrim (.str (fmtNat v)))) ++ "]")
-  | .seq et => seqFrom et (col.comps.map (fun v et => textScalarVal et (fmtNat v))) []
-  | .struct fs => structFromSeq fs (col.comps.map (fun v et => textScalarVal et (fmtNat v))) []
+  | .seq et => seqFrom et (col.comps.map (fun v et => textScalarOpt et (fmtNat v))) []
+  | .struct fs => structFromSeq fs (col.comps.map (fun v et => textScalarOpt et (fmtNat v))) []
   | _ => .error .type
 
-/-- `rgb { r g b }` for a sequence visitor: the header name, then the array (tests/de.rs
-`same_deserializer_for_header_token`).  Only the tape-based text deserializer presents it so. -/
+/-- a header value `rgb { r g b }` read with request `t` by the tape-based text deserializer (de.rs:1085-1340 with
+dom.rs `read_array`; measured on the real code, see corpus/C10.txt): a scalar request reads the header's NAME
+(`read_scalar` on the header token), `deserialize_any` and the struct / map requests go to the BODY `{ r g b }`, a
+sequence request gets the two elements *header token* (read with the element type: this same function) and *body*
+(`read_array` on a header starts at the header token).  Only a typed pair - first element a string, second a sequence
+of integers - reads as `("rgb", [r, g, b])` like the binary `ColorSequence`
+(tests/de.rs `same_deserializer_for_header_token`); with `any` elements the text side yields the body twice. -/
 def textColor (t : Ty) (col : Rgb) : Res String :=
   match t with
   | .ign => .ok "ign"
-  | .seq e => seqFrom e [outerElem1, textInner col] []
-  | .struct fs => structFromSeq fs [outerElem1, textInner col] []
-  | _ => .error .type
+  | .any => textInner col .any
+  | .seq e =>
+    match textColor e col with
+    | .error x => .error x
+    | .ok v1 =>
+      match textInner col e with
+      | .error x => .error x
+      | .ok v2 => .ok ("[" ++ joinComma [v1, v2] ++ "]")
+  | .struct fs => textInner col (.struct fs)
+  | .map _ => .error .type
+  | .prop _ => .error .beyond
+  | .opt t' => someStr (textColor t' col)
+  | t => textScalarVal t [114, 103, 98]
 
 /-- the text format: every key is a string. -/
 def textSem (c : Cfg) : Sem :=
